@@ -68,6 +68,20 @@ package charset
 //@   loop 1 decreases i + 1
 //@   loop 2 invariant [C11_high] !hasHighBit ==> (forall j :: 0 <= j && j <= rangeindex ==> content[j] < 128)
 
+// xml_src / xml_err: ghost record of the document handed to the XML decoder and of the error
+// RawToken returned (set by its assumed contract). A document with an XML declaration must
+// reach the label extraction whatever encoding it declares.
+//@ func charset.fromXML
+//@   ghost entry: xml_err = 0
+//@   ensures [C12_xml_decl_read] xmlHasDecl(xml_src) ==> xml_err == 0
+
+// a byte-order mark takes precedence over a meta declaration
+//@ func charset.FromHTML
+//@   ensures [C12_bom_first_utf8] hasPrefix(content, "\xEF\xBB\xBF") ==> result == "utf-8"
+//@   ensures [C12_bom_first_utf16be] hasPrefix(content, "\xFE\xFF") ==> result == "utf-16be"
+//@   ensures [C12_bom_first_utf16le] hasPrefix(content, "\xFF\xFE") && !hasPrefix(content, "\xFF\xFE\x00\x00") ==> result == "utf-16le"
+//@   ensures [C12_bom_first_any] hasBOM(content) ==> len(result) != 0
+
 //@ func charset.fromMetaElement
 //@   loop 1 decreases len(s)
 
